@@ -81,6 +81,13 @@ func genC18(g gen.G) C18Case {
 		o.Edits = 0
 	}
 	w := g.World(o)
+	if g.Chance(25) {
+		// a world in which references resolve, with a twin of one file next to it: every
+		// declaration has a counterpart at exactly the same position in another file
+		w = g.RefWorld(1, false)
+		src := w.Paths[0].Files[g.Int(0, len(w.Paths[0].Files)-1)]
+		w.Paths[0].Files = append(w.Paths[0].Files, m.FileM{Name: "twin_" + src.Name, Text: src.Text})
+	}
 	// file names unique across paths, so that a range names its file unambiguously
 	for pi := range w.Paths {
 		for fi := range w.Paths[pi].Files {
